@@ -145,18 +145,37 @@ def o_closure(case):
             blobs.append(pushes[b[1] % len(pushes)])
         elif b[0] == "other":
             blobs.append(bytes.fromhex(b[1]))
-    tx = _pycoin_tx(T, txd, [5] * len(txd["ins"]))
+    amounts = [5 + 11 * k for k in range(len(txd["ins"]))]
+    tx = _pycoin_tx(T, txd, amounts)
     snap = _snapshot(tx)
     sc = T.SolutionChecker(tx)
     f = sc._make_sighash_f(n_in)
     code = script[begin:]
     removed = 0
+    if coin in ("bch", "btg"):
+        # fork-id coins: the digest is the BIP143-style one over the script code from the last executed separator,
+        # later separators kept.  Only blobs that do not occur in the script are used, so signature removal (on which
+        # the fork-id chains' rules differ from Bitcoin's) cannot matter.
+        blobs = [b for b in blobs if R.find_and_delete(code, R.push_encoding(b))[1] == 0]
     for b in blobs:
         code, n = R.find_and_delete(code, R.push_encoding(b))
         removed += n
     labels = ["coin=" + coin, "blobs=%d" % len(blobs), "removed" if removed else "nothing-removed", "sep" if begin else "nosep"]
+    if b"\xab" in code:
+        labels.append("separator-left-in-code")
     for ht in case["hts"]:
-        got = f(ht, list(blobs), _VMStub(script, begin))
+        try:
+            got = f(ht, list(blobs), _VMStub(script, begin))
+        except ScriptError:
+            got = "refused"
+        if coin in ("bch", "btg"):
+            exp = R.forkid(txd, n_in, code, amounts[n_in], ht, 0 if coin == "bch" else 79)
+            exp = "refused" if exp is None else exp
+            if got != exp:
+                raise Violation("sighash:closure:forkid-coin",
+                                "%s sighash closure(ht=0x%02x) over script %s from %d = %s, reference fork-id digest %s" % (
+                                    coin, ht, script.hex()[:300], begin, _h(got), _h(exp)))
+            continue
         exp = R.legacy(txd, n_in, code, ht, R.sha256 if coin == "grs" else R.sha256d)
         if got != exp:
             raise Violation("sighash:closure:find-and-delete" if removed else "sighash:closure",
@@ -276,9 +295,9 @@ def s_closure():
     blob = st.one_of(st.tuples(st.just("push"), st.integers(0, 30)).map(list),
                      st.tuples(st.just("other"), st.sampled_from(["", "3006020101020101" + "01", "abab", "0000"])).map(list))
     return st.builds(lambda tx, code, coin, blobs, sep, hts: dict(tx, code=code, coin=coin, blobs=blobs, sep=sep, hts=hts),
-                     _txs(), _wellformed_codes(), st.sampled_from(["btc", "btc", "ltc", "grs"]),
+                     _txs(), _wellformed_codes(), st.sampled_from(["btc", "btc", "ltc", "grs", "bch", "btg"]),
                      st.lists(blob, min_size=0, max_size=3), st.integers(0, 3),
-                     st.lists(st.one_of(st.sampled_from([1, 2, 3, 0x81, 0x82, 0x83, 0]), st.integers(0, 255)), min_size=1, max_size=4))
+                     st.lists(st.one_of(st.sampled_from([1, 2, 3, 0x81, 0x82, 0x83, 0, 0x41, 0x42, 0x43, 0xc1, 0xc3]), st.integers(0, 255)), min_size=1, max_size=4))
 
 
 def s_history():
@@ -306,7 +325,7 @@ SUBCHECKS = [
     SubCheck("digests_all_hashtypes", o_sighash, strategy=s_sighash, budget=(480, 30000), nontrivial=nt,
              rule="generated transaction (1-6 inputs, 0-6 outputs, full-range fields) x well-formed script code (grammar incl. code separators and 0xab data bytes) x coin class; for EVERY hash type 0-255 both _signature_hash and _signature_for_hash_type_segwit equal the reference (fork-id coins: ScriptError iff FORKID bit clear); tx snapshot unchanged; non-trivial = >=2 inputs and >=2 outputs, or code containing a 0xab byte"),
     SubCheck("legacy_closure", o_closure, strategy=s_closure, budget=(2500, 200000), nontrivial=nt,
-             rule="the sighash function handed to the VM (BTC/LTC/GRS): script sliced at a generated code-separator position, generated signature blobs (pushes present in the script, in any encoding, and absent ones) removed as consensus FindAndDelete does, digest equals the reference; non-trivial as above or a blob was actually removed"),
+             rule="the sighash function handed to the VM (BTC/LTC/GRS legacy digest; BCH/BTG fork-id digest with later code separators kept): script sliced at a generated code-separator position, generated signature blobs (pushes present in the script, in any encoding, and absent ones) removed as consensus FindAndDelete does, digest equals the reference; non-trivial as above or a blob was actually removed"),
 ]
 
 FUZZ = {"legacy_closure": 20000, "checker_history": 20000}
